@@ -116,45 +116,188 @@ def relevant_hyps(hyps, goal, extra=()):
     return [h for (h, _), c in zip(hs, chosen) if c]
 
 
+def _cache_get(key):
+    if not smt.CACHE_DIR:
+        return None
+    p = os.path.join(smt.CACHE_DIR, key + '.res')
+    if os.path.exists(p):
+        try:
+            import json
+            return json.load(open(p))
+        except Exception:
+            return None
+    return None
+
+
+def _cache_put(key, res):
+    if not smt.CACHE_DIR:
+        return
+    try:
+        import json
+        os.makedirs(smt.CACHE_DIR, exist_ok=True)
+        r = {k: v for k, v in res.items() if k != 'query'}
+        json.dump(r, open(os.path.join(smt.CACHE_DIR, key + '.res'), 'w'))
+    except Exception:
+        pass
+
+
 def discharge(run, ob, timeout=10, want_all=False):
-    """solve one obligation; fills ob.result"""
+    """solve one obligation; fills ob.result.
+    stage 1: quantifier-free (generator-instantiated) query on z3-new, short timeout;
+    stage 2: every remaining (query form x solver) pair raced in parallel, first `unsat` wins.
+    A `sat` is definitive only for a query without quantified hypotheses (form 'ground')."""
+    import hashlib
     if ob.result is not None and ob.result.get('trivial'):
         return ob.result
-    hyps = run.hyps[:ob.nhyps] + list(run.rec_defs)
+    hyps = run.hyps[:ob.nhyps]
     hyps = relevant_hyps(hyps, ob.goal)
-    t0 = time.time()
+    unfold = run.make_unfolder() if hasattr(run, 'make_unfolder') else None
+    nlmul = 'nlmul' in (run.spec.flags if getattr(run, 'spec', None) is not None else ())
     try:
-        nlmul = 'nlmul' in (run.spec.flags if getattr(run, 'spec', None) is not None else ())
-        text, info = smt.build_query(hyps, ob.goal, quantified=False, nlmul=nlmul)
+        text, info = smt.build_query(hyps, ob.goal, quantified=False, nlmul=nlmul, unfold=unfold)
     except Exception as e:  # printing problem = engine bug; counts as failed
         ob.result = {'result': 'error', 'solver': None, 'time': 0.0, 'output': 'query generation failed: %r' % (e,)}
         return ob.result
     if len(text) > smt.MAX_QUERY_BYTES:
         ob.result = {'result': 'error', 'solver': None, 'time': 0.0, 'output': 'query too large (%d bytes)' % len(text)}
         return ob.result
-    res = smt.solve(text, timeout=timeout, want_all=want_all)
-    res['form'] = 'instantiated' if info['instantiated'] else 'ground'
-    res['bytes'] = len(text)
-    res['query'] = text
-    if res['result'] != 'unsat' and info['instantiated'] and not ob.expect_sat:
-        # secondary: quantified form with the solvers' own instantiation (can only help with unsat)
-        text2, info2 = smt.build_query(hyps, ob.goal, quantified=True, nlmul=nlmul)
-        res2 = smt.solve(text2, timeout=timeout, want_all=want_all)
-        if res2['result'] == 'unsat':
-            res2['form'] = 'quantified'
-            res2['bytes'] = len(text2)
-            res2['query'] = text2
-            res = res2
+    form = 'instantiated' if info['instantiated'] else 'ground'
+    key = hashlib.sha256((text + '|%d|%s' % (timeout, 'sat' if ob.expect_sat else 'unsat')).encode()).hexdigest()
+    cached = _cache_get(key)
+    if cached is not None:
+        cached['cached'] = True
+        cached['query'] = text
+        ob.result = cached
+        return cached
+    per = {}
+    stop = ('sat',) if ob.expect_sat else ('unsat',)
+    text2 = None
+    if info['instantiated'] and not ob.expect_sat:
+        try:
+            text2, info2 = smt.build_query(hyps, ob.goal, quantified=True, nlmul=nlmul, unfold=run.make_unfolder() if unfold else None)
+        except Exception:
+            text2 = None
+    if ob.expect_sat:
+        # vacuity canaries: only `unsat` (contradictory hypotheses) matters; do not wait long for a model
+        w, rs = smt.race([('%s@z3-new' % form, 'z3-new', text)], min(timeout, 3), stop_on=('sat', 'unsat'))
+        r1 = rs.get('%s@z3-new' % form, ('timeout', '', 0.0))
+        res = {'result': r1[0], 'solver': 'z3-new', 'time': r1[2], 'output': r1[1], 'form': form}
+        per.update(rs)
+    else:
+        jobs1 = [('%s@z3-new' % form, 'z3-new', text)]
+        if text2 is not None:
+            jobs1.append(('quantified@z3-new', 'z3-new', text2))
+            jobs1.append(('quantified@z3', 'z3', text2))
+        w, rs = smt.race(jobs1, min(timeout, 6), stop_on=('unsat',) if form != 'ground' else ('sat', 'unsat'))
+        per.update(rs)
+        res = None
+        if w is not None:
+            f, sv = w.split('@')
+            res = {'result': rs[w][0], 'solver': sv, 'time': rs[w][2], 'output': rs[w][1], 'form': f}
+            if f == 'quantified':
+                text = text2
         else:
-            res['candidate_model'] = True
+            jobs = [('%s@z3' % form, 'z3', text), ('%s@cvc5' % form, 'cvc5', text)]
+            if rs.get('%s@z3-new' % form, ('timeout',))[0] not in ('sat', 'unsat') and timeout > 4:
+                jobs.append(('%s@z3-new' % form, 'z3-new', text))
+            if text2 is not None:
+                jobs.append(('quantified@z3', 'z3', text2))
+                jobs.append(('quantified@cvc5', 'cvc5', text2))
+                if timeout > 4:
+                    jobs.append(('quantified@z3-new', 'z3-new', text2))
+            w, rs = smt.race(jobs, timeout, stop_on=stop)
+            for k_, v_ in rs.items():
+                if k_ not in per or v_[0] in ('sat', 'unsat'):
+                    per[k_] = v_
+            if w is not None:
+                f, sv = w.split('@')
+                res = {'result': rs[w][0], 'solver': sv, 'time': rs[w][2], 'output': rs[w][1], 'form': f}
+                if f == 'quantified':
+                    text = text2
+            else:
+                best = None
+                for lab, (r, out, tm) in per.items():
+                    if r == 'sat':
+                        best = (lab, r, out, tm)
+                        break
+                if best is None:
+                    st = [r for r, _, _ in per.values()]
+                    rr = 'timeout' if all(x == 'timeout' for x in st) else 'unknown'
+                    res = {'result': rr, 'solver': None, 'time': float(timeout), 'form': form,
+                           'output': '; '.join('%s=%s' % (l, v[0]) for l, v in per.items())}
+                else:
+                    f, sv = best[0].split('@')
+                    res = {'result': best[1], 'solver': sv, 'time': best[3], 'output': best[2], 'form': f}
+                    if f != 'ground':
+                        res['candidate_model'] = True
+    res['per_solver'] = {}
+    for lab, (r, out, tm) in per.items():
+        sv = lab.split('@')[1]
+        d = res['per_solver'].setdefault(sv, {'result': r, 'time': 0.0})
+        d['time'] = round(d['time'] + tm, 3)
+        if r in ('unsat', 'sat'):
+            d['result'] = r
+    res['bytes'] = len(text)
+    res['hash'] = hashlib.sha256(text.encode()).hexdigest()
+    if res['result'] in ('sat', 'unsat'):
+        _cache_put(key, res)
+    res['query'] = text
     ob.result = res
     return res
 
 
+_JOBS = []
+_TIMEOUT = 10
+
+
+def _work(i):
+    run, ob = _JOBS[i]
+    try:
+        r = discharge(run, ob, _TIMEOUT)
+    except Exception as e:  # engine failure counts as a failed obligation, never as a pass
+        r = {'result': 'error', 'solver': None, 'time': 0.0, 'output': 'discharge crashed: %r' % (e,)}
+    return i, r
+
+
+def discharge_many(jobs, timeout=10, procs=10):
+    """jobs: list of (run, obligation).  Query generation is CPU-bound Python, so fan out over forked processes
+    (the runs are inherited by fork, only results travel back)."""
+    global _JOBS, _TIMEOUT
+    jobs = [(r, o) for r, o in jobs if not (o.result and o.result.get('trivial'))]
+    if not jobs:
+        return
+    _JOBS = jobs
+    _TIMEOUT = timeout
+    import multiprocessing
+    ctx = multiprocessing.get_context('fork')
+    n = max(1, min(procs, len(jobs)))
+    with ctx.Pool(n) as pool:
+        for i, r in pool.imap_unordered(_work, range(len(jobs)), chunksize=1):
+            jobs[i][1].result = r
+    # second chance for undecided obligations: solver timeouts under a loaded machine must not become alarms.
+    # Retried a few at a time with a longer timeout; a definitive `sat` (ground query) is not retried.
+    retry = []
+    for i, (run, ob) in enumerate(jobs):
+        r = ob.result or {}
+        if ob.expect_sat:
+            continue
+        if r.get('result') in ('unknown', 'timeout') or (r.get('result') == 'sat' and r.get('form') != 'ground'):
+            retry.append(i)
+    if retry and len(retry) <= 12:
+        _TIMEOUT = max(timeout * 3, 30)
+        saved_cache = smt.CACHE_DIR
+        with ctx.Pool(min(3, len(retry))) as pool:
+            for i, r in pool.imap_unordered(_work, retry, chunksize=1):
+                if r.get('result') == 'unsat':
+                    r['retried'] = True
+                    jobs[i][1].result = r
+                elif jobs[i][1].result.get('result') in ('unknown', 'timeout') and r.get('result') == 'sat':
+                    jobs[i][1].result = r
+        _TIMEOUT = timeout
+
+
 def discharge_all(run, timeout=10, jobs=16, want_all=False):
-    obs = [o for o in run.obls if not (o.result and o.result.get('trivial'))]
-    with concurrent.futures.ThreadPoolExecutor(max_workers=jobs) as ex:
-        list(ex.map(lambda o: discharge(run, o, timeout, want_all), obs))
+    discharge_many([(run, o) for o in run.obls], timeout, jobs)
 
 
 def ob_ok(ob):
